@@ -8,6 +8,7 @@ CONSTANTS
   MaxEof = 3
   SlowSet = {}
   CfgWrite = FALSE
+  NCl = 1
 INVARIANT MonitorQuiet
 INVARIANT OneReceivePath
 INVARIANT LockDiscipline
